@@ -59,6 +59,7 @@ type Exec struct {
 	optOverride map[string]string
 	AbstractMul bool
 	pool        *Pool
+	Havoc       *HavocEnv
 	feasCalls   int
 	feasPruned  int
 }
